@@ -167,7 +167,7 @@ func init() {
 		Title: "Shutdown always completes: no hang, no panic, channels closed",
 		Explain: "Decides structural necessary conditions of clean shutdown: WaitGroup Add/Done pairing of the fan-out helpers (C12.pairing; the pipeline groups are covered by C01/C03/C07 rules that this property shares); a frozen table of close() sites per channel field with their once/defer attributes, so that a second closer or a closer outside its sync.Once is reported (C12.close-sites); the close/wait hand-shakes of client, broker, offset manager, heartbeat, partition consumer and subscription manager (C12.handshakes); every blocking select of the long-running loops has a case on its component's shutdown channel (C12.dying); for channels closed by their only sender, the sender table (C12.who-sends); the closure handed to a sync.Once in a Close path has no return that skips teardown its normal exit performs (C12.once-complete); every subscription of a broker worker that gives up is handed back to its dispatcher exactly once, dying ones included — the hand-over is what lets a closing partition consumer finish (C03.redispatch, shared). " +
 			"NOT covered: absence of deadlock in general, send/close races that need a happens-before argument (consumerGroup.errors, partitionConsumer.errors/trigger).",
-		Rules: []func(*Ctx){c12Pairing, c12CloseSites, c12OnceComplete, c12LockReleased, c12Refcount, c12Handshakes, c12Dying, c12WhoSends, c01Shutdown, c01BrokerShutdown, c01Markers, c03Redispatch},
+		Rules: []func(*Ctx){c12Pairing, c12CloseSites, c12OnceComplete, c12LockReleased, c12Refcount, c12Handshakes, c12Dying, c12WhoSends, c12SendVsCloseLock, c01Shutdown, c01BrokerShutdown, c01Markers, c03Redispatch},
 	})
 }
 
@@ -747,7 +747,7 @@ func c12WhoSends(c *Ctx) {
 	p := c.P
 	rule := "C12.who-sends"
 	c.Doc(rule, "channels closed by their only sender: the set of functions that send on them is the tabled one, so no send can follow the close")
-	c.Floor(rule, 6)
+	c.Floor(rule, 7)
 	table := map[string][]string{
 		"partitionConsumer.messages":      {"partitionConsumer.responseFeeder"},
 		"asyncProducer.errors":            {"asyncProducer.dispatcher", "asyncProducer.returnError"},
@@ -756,6 +756,7 @@ func c12WhoSends(c *Ctx) {
 		"brokerConsumer.newSubscriptions": {"brokerConsumer.subscriptionManager"},
 		"brokerConsumer.wait":             {"brokerConsumer.subscriptionManager"},
 		"partitionConsumer.feeder":        {"brokerConsumer.subscriptionConsumer"},
+		"partitionOffsetManager.errors":   {"partitionOffsetManager.handleError"},
 	}
 	fields := make([]string, 0, len(table))
 	for f := range table {
@@ -777,5 +778,62 @@ func c12WhoSends(c *Ctx) {
 		sort.Strings(want)
 		c.Check(strings.Join(got, ",") == strings.Join(want, ","), rule, nil, "senders:"+f, nil, "senders of "+f+": "+strings.Join(got, ","),
 			"senders of "+f+" are ["+strings.Join(got, ",")+"], tabled ["+strings.Join(want, ",")+"]: a new sender may send after the close (panic)", nil)
+	}
+}
+
+// C12.send-vs-close-lock: a channel that has several senders running concurrently with its closer is safe only if the
+// sends and the close exclude each other.  pom.errors: sent on by pom.handleError (commit errors, from whichever
+// goroutine ran the commit), closed by pom.release (from releasePOMs, i.e. Close or a later successful flush).  What
+// orders them is om.pomsLock: the senders run under the read lock, the closer under the write lock.
+func c12SendVsCloseLock(c *Ctx) {
+	p := c.P
+	rule := "C12.send-vs-close-lock"
+	c.Doc(rule, "partitionOffsetManager.errors: every call of partitionOffsetManager.handleError (the only sender) is made while an offsetManager.pomsLock is held (read or write), every call of partitionOffsetManager.release (the only closer) while it is held for writing; so the close cannot happen between a sender's decision to send and its send")
+	c.Floor(rule, 6)
+	need := map[string]int{"partitionOffsetManager.handleError": 1, "partitionOffsetManager.release": 2}
+	// the closer really is the only closer
+	for _, fn := range p.Fns {
+		if rootFn(fn).Pkg != p.Sarama {
+			continue
+		}
+		if hasItem(fn, CloseOf(FieldLoad("partitionOffsetManager.errors"))) && p.Name(rootFn(fn)) != "partitionOffsetManager.release" {
+			c.Fail(rule, fn, "closer", nil, "partitionOffsetManager.errors is closed outside partitionOffsetManager.release: the lock discipline checked here does not cover that close", nil)
+		}
+	}
+	n := 0
+	for _, fn := range p.Fns {
+		if rootFn(fn).Pkg != p.Sarama {
+			continue
+		}
+		heldLocks(p, fn, func(i ssa.Instruction, held lockset) {
+			cc, ok := callCommon(Item{In: i})
+			if !ok {
+				return
+			}
+			name := p.CalleeName(cc)
+			mode, tabled := need[name]
+			if !tabled {
+				return
+			}
+			_, isCall := i.(*ssa.Call)
+			got := 0
+			if isCall {
+				for k, m := range held {
+					if k.lock == "pomsLock" && m > got {
+						got = m
+					}
+				}
+			}
+			n++
+			what := "read or write"
+			if mode == 2 {
+				what = "write"
+			}
+			c.Check(got >= mode, rule, fn, "call:"+name, i, name+" called with pomsLock held ("+what+")",
+				name+" is called without holding offsetManager.pomsLock ("+what+" mode): a failed commit's error can be sent on pom.errors while releasePOMs (Close, or a concurrent successful commit) closes it — send on closed channel panic, and the channel is closed before its last event", nil)
+		})
+	}
+	if n < 6 {
+		c.Unresolved(rule, fmt.Sprintf("calls of partitionOffsetManager.handleError/release (found %d)", n))
 	}
 }
